@@ -1559,7 +1559,23 @@ func (c *compiler) compileTermSuffix(e *Term, s *Suffix) error {
 		return nil
 	} else if s.Optional {
 		if len(e.SuffixList) > 0 {
-			if u := e.SuffixList[len(e.SuffixList)-1].toTerm(); u != nil {
+			if x := e.SuffixList[len(e.SuffixList)-1].Index; x != nil {
+				// no need to clone (ref: compileTerm)
+				e.SuffixList = e.SuffixList[:len(e.SuffixList)-1]
+				if err := c.compileIndex(e, x); err != nil {
+					return err
+				}
+				// only the indexing is optional: wrap the last instruction
+				// (opindex or opcall) so that the term and the index query
+				// are evaluated against the same input as without `?`
+				last := c.codes[len(c.codes)-1]
+				c.codes[len(c.codes)-1] = &code{op: opforktrybegin, v: len(c.codes) + 3}
+				c.append(last)
+				c.append(&code{op: opforktryend})
+				c.append(&code{op: opjump, v: len(c.codes) + 2})
+				c.append(&code{op: opbacktrack})
+				return nil
+			} else if u := e.SuffixList[len(e.SuffixList)-1].toTerm(); u != nil {
 				// no need to clone (ref: compileTerm)
 				e.SuffixList = e.SuffixList[:len(e.SuffixList)-1]
 				if err := c.compileTerm(e); err != nil {
